@@ -36,6 +36,30 @@ def field_selectors(names, rich=True):
     """Yield (tag, class, numpy_index or None) for a plotfile with reader-side field names `names`.
     numpy_index is what to apply on the last axis of the reference array (None: must raise)."""
     n = len(names)
+    if n > 16:
+        # very many fields: a fixed menu that contains every FORM (the complete alphabets are astronomically large)
+        for i in (0, 1, 9, 10, 99, 100, n // 2, n - 1):
+            if i < n:
+                yield ["name", names[i]], "A", i
+        yield ["name", "no_such_field"], "C", None
+        for i in (0, 9, 10, n - 1, -1, -n, n, -n - 1):
+            c = _cls_int(i, n)
+            yield ["int", i], c, (i if c != "C" else None)
+            yield ["npint", i], ("B" if c != "C" else "C"), (i if c != "C" else None)
+        for a, b, st in ((None, None, None), (1, None, None), (None, 10, None), (9, 11, None), (99, 101, None), (None, None, 2), (5, n - 5, 7), (-3, None, None),
+                         (None, None, -1), (n - 1, n, None), (10, 10, None)):
+            sl = slice(a, b, st)
+            cnt = len(range(*sl.indices(n)))
+            yield ["slice", a, b, st], ("A" if (st in (None, 1, 2, 7) and cnt > 0) else "B"), sl
+        for L in ([0, n - 1], [9, 10, 11], [2, 3, 7], list(range(0, n, 11)), [n - 2, n - 1]):
+            yield ["list", list(L)], "A", list(L)
+            yield ["array", list(L)], "A", list(L)
+            yield ["names", [names[i] for i in L]], "A", list(L)
+        for L in ([n - 1, 0], [10, 9, 100 % n], [1, 2, 0], [0, 0], [-1, 0]):
+            yield ["list", list(L)], "B", list(L)
+        yield ["list", [0, n]], "C", None
+        yield ["names", [names[1], names[0]]], "B", [1, 0]
+        return
     for i, nm in enumerate(names):
         yield ["name", nm], "A", i
     yield ["name", "no_such_field"], "C", None
